@@ -44,8 +44,9 @@ THEOREMS = [
     "Measured.Obligations.prefixes_wellformed", "Measured.Obligations.prefixes_closed",
     "Measured.Obligations.shipped_unit_pow_prefix",
     "Measured.flat_prefix_laws", "Measured.convert_flat_single",
+    "Measured.C11.prefixes_scale_conversions",
 ]
-LEAN_TARGETS = ["Props.C11", "Props.C11Real", "Proofs.Flat", "Obligations.C11"]
+LEAN_TARGETS = ["Props.C11", "Props.C11Real", "Proofs.Flat", "Obligations.C11", "Props.Planner"]
 QUICK = {"chunks": 4, "ops": 1000}
 THOROUGH = {"chunks": 16, "ops": 6000}
 RTOL = 1e-11
